@@ -130,7 +130,20 @@ func buildScenarios(key echx.KeyPair) []scenario {
 	// a HelloRetryRequest with a 17000-byte cookie: longer than a record, within the handshake message limit
 	bigHRRMsg := tlsref.ServerHelloMsg(true, sid, []tlsref.Ext{{Type: tlsref.ExtSupportedVersions, Data: []byte{3, 4}}, {Type: tlsref.ExtKeyShare, Data: []byte{0, 0x17}}, {Type: 44, Data: append([]byte{17000 >> 8, 17000 & 0xff}, tlsref.DetBytes("cookie", 17000)...)}})
 	hrrBig := tlsref.FragmentMax(0x0303, bigHRRMsg)
+	// the ServerHello shares its record with the message that follows it (any stack may coalesce handshake messages; a TLS 1.2
+	// style first flight does), whole and with the record boundary falling inside the ServerHello
+	nextMsg := tlsref.HandshakeMsg(8, tlsref.DetBytes("ee", 40))
+	serverFlightCoalesced := cat(tlsref.Record(22, 0x0303, cat(shMsg, nextMsg)), serverFlight[len(echx.ServerHelloRecord(sid)):])
+	serverFlightCoalescedFrag := cat(tlsref.Fragment(0x0303, cat(shMsg, nextMsg), 30), serverFlight[len(echx.ServerHelloRecord(sid)):])
 	return []scenario{
+		{"accepted-serverhello-coalesced", keys, []step{
+			{dir: 'c', data: cat(ch1, clientTailNoAppFirst), expect: cat(in1, clientTailNoAppFirst), rewritten: [][2]int{{0, len(ch1)}}},
+			{dir: 'b', data: serverFlightCoalesced, expect: serverFlightCoalesced},
+		}},
+		{"accepted-serverhello-coalesced-fragmented", keys, []step{
+			{dir: 'c', data: cat(ch1, clientTailNoAppFirst), expect: cat(in1, clientTailNoAppFirst), rewritten: [][2]int{{0, len(ch1)}}},
+			{dir: 'b', data: serverFlightCoalescedFrag, expect: serverFlightCoalescedFrag},
+		}},
 		{"accepted-fragmented-serverhello", keys, []step{
 			{dir: 'c', data: cat(ch1, clientTailNoAppFirst), expect: cat(in1, clientTailNoAppFirst), rewritten: [][2]int{{0, len(ch1)}}},
 			{dir: 'b', data: serverFlightFrag, expect: serverFlightFrag},
